@@ -78,6 +78,8 @@ type runConfig struct {
 	SlowFSM      int // per-mille chance that an FSM call takes simulated time
 	NotifyCrash  bool
 	MaxBuf       int
+	SlowIO       int           // per-mille chance that a file-system or mmap call takes simulated time
+	SlowIOMax    time.Duration // at most this long
 }
 
 func pick[T any](t *rt.Tape, opts ...T) T { return opts[t.Choose(rt.StConfig, len(opts))] }
@@ -127,5 +129,7 @@ func drawConfig(t *rt.Tape, p profile) runConfig {
 	c.SlowFSM = pick(t, 0, 0, 50, 300)
 	c.NotifyCrash = t.Chance(rt.StConfig, 2, 3)
 	c.MaxBuf = pick(t, 256<<10, 4<<10, 64<<10)
+	c.SlowIO = pick(t, 0, 0, 10, 50, 200)
+	c.SlowIOMax = pick(t, c.HB/40, c.HB/200, c.HB/10, c.HB/4)
 	return c
 }
